@@ -107,6 +107,11 @@ async fn run_async(ctx: &mut Ctx, enumerate: bool) {
     }
     let mut next_rid = 1u64;
     let mut mutated = 0u32;
+    // which address each session (key-log entry) was established with
+    let mut hs_in: Vec<(usize, std::net::SocketAddr, discv5::enr::NodeId)> = vec![];
+    let mut hs_out: Vec<(usize, std::net::SocketAddr, discv5::enr::NodeId)> = vec![];
+    let mut session_addr: std::collections::BTreeMap<usize, std::net::SocketAddr> = Default::default();
+    let mut keys_seen = 0usize;
 
     loop {
         if ctx.failed() {
@@ -114,10 +119,25 @@ async fn run_async(ctx: &mut Ctx, enumerate: bool) {
         }
         let obs = w.next().await;
         w.absorb_keys();
+        while keys_seen < w.keylog.len() {
+            let k = w.keylog[keys_seen].1.clone();
+            if let Some(n) = w.node_by_id(&k.local) {
+                let a = if k.initiator { hs_out.iter().rev().find(|(m, _, id)| *m == n && *id == k.remote).map(|x| x.1) } else { hs_in.iter().rev().find(|(m, _, id)| *m == n && *id == k.remote).map(|x| x.1) };
+                if let Some(a) = a {
+                    session_addr.insert(keys_seen, a);
+                }
+            }
+            keys_seen += 1;
+        }
         match obs {
             Obs::Horizon => break,
             Obs::Datagram { from, out } => {
                 let wi = w.tap(ctx, from, &out);
+                if let Some(d) = &w.wire[wi].dec {
+                    if matches!(d.kind, PacketKind::Handshake { .. }) {
+                        hs_out.push((from, out.0, out.1));
+                    }
+                }
                 let is_target = match target {
                     Some(d) => wi as u64 == d,
                     None => ctx.tape.choose(100) < corrupt_pct,
@@ -207,6 +227,11 @@ async fn run_async(ctx: &mut Ctx, enumerate: bool) {
             }
             Obs::Sched(Ev::Deliver { to, src, bytes, origin }) => {
                 if w.nodes[to].alive {
+                    if let Ok(d) = toolkit::decode_packet(&w.nodes[to].id, &bytes) {
+                        if let PacketKind::Handshake { src_id, .. } = d.kind {
+                            hs_in.push((to, src, src_id));
+                        }
+                    }
                     w.deliver(to, src, bytes, origin);
                 }
             }
@@ -240,7 +265,7 @@ async fn run_async(ctx: &mut Ctx, enumerate: bool) {
                     }
                     HandlerOut::Request(from, req) => {
                         ctx.ev(format!("t={t} n{node} out Request({}) from {}", req.body, short_id(&from.node_id)));
-                        check_delivery(ctx, &w, node, &from, Message::Request((*req).clone()));
+                        check_delivery(ctx, &w, &session_addr, node, &from, Message::Request((*req).clone()));
                         let total = if matches!(&req.body, RequestBody::FindNode { distances } if distances.as_slice() != [0]) { 2 } else { 1 };
                         for resp in w.default_response(node, &from, &req, total) {
                             w.schedule(0, Ev::Custom(X::AppRespond { node, to: from.clone(), resp }));
@@ -248,7 +273,7 @@ async fn run_async(ctx: &mut Ctx, enumerate: bool) {
                     }
                     HandlerOut::Response(from, resp) => {
                         ctx.ev(format!("t={t} n{node} out Response r{} from {}", rid_num(&resp.id), short_id(&from.node_id)));
-                        check_delivery(ctx, &w, node, &from, Message::Response((*resp).clone()));
+                        check_delivery(ctx, &w, &session_addr, node, &from, Message::Response((*resp).clone()));
                     }
                     HandlerOut::RequestFailed(id, e) => ctx.ev(format!("t={t} n{node} out RequestFailed r{} {e:?}", rid_num(&id))),
                     HandlerOut::Established(e, a, d) => ctx.ev(format!("t={t} n{node} out Established({}, {a}, {d:?})", short_id(&e.node_id()))),
@@ -265,7 +290,7 @@ async fn run_async(ctx: &mut Ctx, enumerate: bool) {
 }
 
 /// The C02 oracle for one delivered message.
-fn check_delivery(ctx: &mut Ctx, w: &HWorld<X>, receiver: usize, from: &NodeAddress, msg: Message) {
+fn check_delivery(ctx: &mut Ctx, w: &HWorld<X>, session_addr: &std::collections::BTreeMap<usize, std::net::SocketAddr>, receiver: usize, from: &NodeAddress, msg: Message) {
     ctx.count("deliveries_checked");
     let Some(p) = w.node_by_id(&from.node_id) else {
         ctx.fail("c02.delivered-from-unknown-id", format!("n{receiver} delivered a message attributed to unknown id {}", short_id(&from.node_id)), &[]);
@@ -294,6 +319,41 @@ fn check_delivery(ctx: &mut Ctx, w: &HWorld<X>, receiver: usize, from: &NodeAddr
             && wr.bytes == rec.bytes
             && wr.dec.as_ref().and_then(|d| w.decrypt_with_log(d, &w.nodes[p].id)).map(|(_, pt)| pt == enc).unwrap_or(false)
     });
+    // the session that decrypts the carrier must have been established with the attributed address
+    // (handshake received from / sent to it): a datagram of a session with P at address A that is
+    // presented from address B must not be delivered as coming from (P, B)
+    if carried {
+        let rid_key = w.nodes[receiver].id;
+        let wrong = w.inbound[receiver].iter().rev().find_map(|rec| {
+            if rec.src != from.socket_addr {
+                return None;
+            }
+            let d = toolkit::decode_packet(&rid_key, &rec.bytes).ok()?;
+            if matches!(d.kind, PacketKind::WhoAreYou { .. }) {
+                return None;
+            }
+            for (i, (_, k)) in w.keylog.iter().enumerate() {
+                if k.local == rid_key && k.remote == from.node_id {
+                    if let Some(pt) = toolkit::decrypt(&k.decryption_key, d.message_nonce, &d.message, &d.authenticated_data) {
+                        if pt == enc {
+                            return Some(session_addr.get(&i).copied());
+                        }
+                    }
+                }
+            }
+            None
+        });
+        if let Some(Some(a)) = wrong {
+            if a != from.socket_addr {
+                ctx.fail(
+                    "c02.wrong-source-address",
+                    format!("n{receiver} delivered message r{rid_of} as coming from n{p} at {}, but it decrypts under a session that was established with n{p} at {a}", from.socket_addr),
+                    &[],
+                );
+                return;
+            }
+        }
+    }
     if !carried {
         // which inbound datagram did carry it?
         let culprit = w.inbound[receiver]
